@@ -116,6 +116,8 @@ class Builder(ExprMixin):
             loc = ("<entry>", 0)
             text = ""
         n = self.g.add(kind, attrs, loc, fr.func.qualname if fr else "<entry>", self.stack_sig(), text)
+        if st is not None:
+            n.span = (getattr(st, "lineno", 0), getattr(st, "end_lineno", None) or getattr(st, "lineno", 0))
         for p in preds:
             self.g.link(p, n.id)
         if may_raise:
